@@ -2,9 +2,9 @@ SPECIFICATION Spec
 CONSTANTS
   Conns = {"c1", "c2"}
   Keys = {"k1"}
-  MaxChg = 1
+  MaxChg = 2
   MaxFlips = 1
-  MaxOps = 4
+  MaxOps = 5
   Versioned = TRUE
   Timer = FALSE
   AllowRevoke = TRUE
